@@ -111,6 +111,37 @@ def _norm_real_out(ret):
             hops.append((h['ttl'], None, False, 0))
     return ('ok', tuple(hops))
 
+def trace_engine(ctx, mc_cfg, traces, drift):
+    """Event-level trace validation (L2): every recorded line of the real parallel engine must be a step of EngineParallel.tla
+    (TraceEngine.tla: logged events bound to spec actions, internal actions silent). A rejected trace is spec drift."""
+    import re, shutil
+    consts = {}
+    for line in open(os.path.join(vt.VERIF, 'spec', mc_cfg)):
+        m = re.match(r'\s*(MinTTL|MaxTTL|Timeout|Poll|Delay) = (\d+)', line)
+        if m:
+            consts[m.group(1)] = m.group(2)
+    cfgname = 'TraceEngine_run.cfg'
+    cfgtext = ('SPECIFICATION TSpec\nCONSTANTS\n' + ''.join('  %s = %s\n' % kv for kv in consts.items()) +
+               '  Scripts = {}\n  CancelTimes = {}\n  SupportsParallel = TRUE\nCONSTRAINT HighWater\nPOSTCONDITION TraceAccepted\nCHECK_DEADLOCK FALSE\n')
+    total = 0
+    from concurrent.futures import ThreadPoolExecutor
+    def one(tp):
+        return tp, vt.run_tlc('TraceEngine', cfg=cfgname, env={'VT_TRACE': tp}, workers=1, timeout=900, heap='2g', deque=True, files={cfgname: cfgtext})
+    with ThreadPoolExecutor(max_workers=min(len(traces), vt.NCPU)) as ex:
+        results = list(ex.map(one, traces))
+    for tp, r in results:
+        total += r.distinct
+        if r.timeout:
+            raise Infra('TraceEngine timed out on ' + tp)
+        if r.rc != 0:
+            stuck = [p for p in r.prints if p.startswith('<<"L2E"')]
+            ctx.notes.append('event-level trace validation rejected %s (rc=%s): %s' % (os.path.basename(tp), r.rc, (stuck or [vt.filtered(r.out, 8)[-300:]])[0]))
+            drift.append('L2E/' + os.path.basename(tp))
+            if os.environ.get('VT_KEEP'):
+                import shutil
+                shutil.copy(tp, '/tmp/vt/rejected.' + os.path.basename(tp))
+    ctx.extra['trace_engine_states'] = ctx.extra.get('trace_engine_states', 0) + total
+
 def engine_family(ctx, prop, module, cfg, engine, obs_props, simulate=None):
     """TLC behaviours of the engine spec replayed into the real engine: for every environment script the real
     output must be one of the outputs the design allows (refinement at the observable level), and the L1
@@ -121,20 +152,22 @@ def engine_family(ctx, prop, module, cfg, engine, obs_props, simulate=None):
         replies = []
         tt = sorted(int(t) for t in scr['script'].keys()) if isinstance(scr['script'], dict) else list(range(scr['min'], scr['min'] + len(scr['script'])))
         get = (lambda t: scr['script'][str(t)]) if isinstance(scr['script'], dict) else (lambda t: scr['script'][t - scr['min']])
-        sendfail = 0
+        sendfail = []
         for t in tt:
             for r in get(t):
                 if r['err'] == 'sendfail':
-                    sendfail = t
+                    sendfail.append(t)
                     continue
                 replies.append({'on_ttl': t, 'ttl': r['ttl'], 'dest': r['dest'], 'delay_us': r['delay'] * UNIT_US, 'ip': r['ip'], 'err': r['err']})
-        s = {'id': '%s/%s/%d' % (prop, engine, i), 'kind': 'engine', 'min': scr['min'], 'max': scr['max'],
+        s = {'id': '%s/%s/%s/%d' % (prop, engine, cfg.replace('.cfg', '').replace('Engine', '').replace('MC', ''), i), 'kind': 'engine', 'min': scr['min'], 'max': scr['max'],
              'timeout_ms': scr['timeout'] * UNIT_US // 1000, 'poll_ms': scr['poll'] * UNIT_US // 1000, 'delay_ms': scr['delay'] * UNIT_US // 1000,
              'cancel_us': scr['cancel'] * UNIT_US if scr['cancel'] >= 0 else 0,
              'engine': {'engine': engine, 'replies': replies, 'send_fail_at': sendfail},
              'label': '%s/script-%d' % (engine, i), '_key': key}
         if scr['cancel'] == 0:
-            s['cancel_us'] = 1   # cancellation at the very start (0 means "never" in the scenario format)
+            s['cancel_us'] = 0
+            s['extra'] = {'cancel_at_start': True}
+        s.setdefault('extra', {})['spec'] = {'script': [get(t) for t in tt], 'cancel': scr['cancel']}
         scen.append(s)
     ctx.extra['rule'] = ('every environment script of %s/%s (replies per probe: none / own TTL / duplicate / destination / destination replacing a '
                          'router reply / late / retryable junk / faults) is explored exhaustively by TLC with all design invariants and then executed on the '
@@ -142,7 +175,7 @@ def engine_family(ctx, prop, module, cfg, engine, obs_props, simulate=None):
                          'design allows for that script; non-trivial = at least one reply was accepted; distinct by script' % (module, cfg, engine.capitalize()))
     if ctx.bin is None:
         vt.build_harness(ctx)
-    traces = vt.run_harness(ctx, [{k: v for k, v in s.items() if k != '_key'} for s in scen], prop + '-' + engine)
+    traces = vt.run_harness(ctx, [{k: v for k, v in s.items() if k != '_key'} for s in scen], prop + '-' + engine + '-' + cfg.replace('.cfg', ''))
     evs = vt.read_traces(traces)
     by_id = {s['id']: s for s in scen}
     ctx.evaluations += len(scen)
@@ -167,6 +200,8 @@ def engine_family(ctx, prop, module, cfg, engine, obs_props, simulate=None):
         ctx.samples.append({'scenario': {k: v for k, v in s0.items() if k != '_key'}, 'allowed_outputs': allowed[s0['_key']][1][:2],
                             'real_events': [{k: v for k, v in e.items() if k not in ('gsample',)} for e in evs.get(s0['id'], [])][:25]})
     viol = vt.observe(ctx, traces, obs_props)
+    if engine == 'parallel':
+        trace_engine(ctx, cfg, traces, drift)
     ctx.extra['spec_drift'] = len(drift)
     vt.confirm_and_report(ctx, {k: {kk: vv for kk, vv in v.items() if kk != '_key'} for k, v in by_id.items()}, viol, obs_props)
 
@@ -222,7 +257,11 @@ def check_C03(ctx):
 def check_C05(ctx):
     engines(ctx, 'C05', ['EngineParallelMC.cfg'], ['EngineSerialMC.cfg'] + ([] if ctx.quick() else ['EngineSerialMC_4.cfg']), ['C05'])
     rule = ctx_rule(ctx)
-    scen = vt.tlc_generate(ctx, 'GenWire', 'C05', 400 if ctx.quick() else 0)
+    scen = vt.tlc_generate(ctx, 'GenWire', 'C05', 0)
+    if ctx.quick():
+        late = [s for s in scen if '/late/' in s['id']]
+        rest = [s for s in scen if '/late/' not in s['id']]
+        scen = late + rest[ctx.seed % 5::5]
     wire_family(ctx, 'C05', scen, rule, nontrivial=delivered_something)
     ctx.extra['rule'] = rule + '; plus ' + (WIRE_RULE % 'C05All (per-hop delay assignments, duplicates with larger delay, production-scale timers)')
     vt.write_evidence(ctx, 'model_checking', ctx_rule(ctx), exhaustive=not ctx.quick())
